@@ -60,6 +60,7 @@ type mhandle struct {
 	lastOp    string // "", read, write, sync
 	readEOF   bool
 	opened    bool // has ever been opened
+	hasIter   bool // a line iterator of this handle is kept in the Lua global IT_<n>
 }
 
 func (h *mhandle) flushPending() {
@@ -418,12 +419,17 @@ func (e *Engine) Run(t *core.Tape, cfg *core.Config, st *core.Stats) (viol *core
 			ops := []string{"read(1)", "write(\"zz\")", "seek(\"set\", 0)", "flush()", "lines()", "close()", "setvbuf(\"no\")", "read(\"*a\")"}
 			op := ops[t.Choose(len(ops))]
 			st.Probe("op_on_closed_handle")
+			if h.hasIter && t.Choose(3) == 0 {
+				st.Probe("kept_iterator_after_close")
+				v = do(fmt.Sprintf("IT_%s()  -- iterator of a closed handle", h.name[2:3]), fmt.Sprintf("return enc(IT_%s())", h.name[2:3]), expect{raise: true})
+				break
+			}
 			v = do(fmt.Sprintf("%s:%s  -- handle is closed", h.name, op), fmt.Sprintf("return enc(%s:%s)", h.name, op), expect{raise: true})
 			if v == nil && t.Choose(4) == 0 {
 				v = do(fmt.Sprintf("io.type(%s)", h.name), fmt.Sprintf("return enc(io.type(%s))", h.name), expect{vals: []string{"Sclosed file"}})
 			}
 		default:
-			switch t.Weighted([]int{6, 6, 3, 3, 2, 2, 2, 2, 1, 1}) {
+			switch t.Weighted([]int{6, 6, 3, 3, 2, 2, 2, 2, 1, 1, 1, 2}) {
 			case 0: // write
 				if h.canWrite && h.lastOp == "read" && !h.readEOF {
 					if v = sync(h); v != nil {
@@ -617,9 +623,13 @@ func (e *Engine) Run(t *core.Tape, cfg *core.Config, st *core.Stats) (viol *core
 				h.lastOp = "read"
 				v = do(fmt.Sprintf("%s:lines() consumed for %d steps", h.name, j),
 					fmt.Sprintf("local it = %s:lines(); local r = {}; for i = 1, %d do r[i] = it() end; return enc(unpack(r, 1, %d))", h.name, j, j), expect{vals: want})
-			case 5: // setvbuf (only with nothing pending)
-				if !h.canWrite || len(h.pending) > 0 {
+			case 5: // setvbuf at any time: bytes already written stay written
+				if !h.canWrite {
 					break
+				}
+				if len(h.pending) > 0 {
+					st.Probe("setvbuf_with_pending_bytes")
+					h.flushPending()
 				}
 				if t.Bool() {
 					sz := []int{1, 16, 4096, 4097}[t.Choose(4)]
@@ -699,6 +709,31 @@ func (e *Engine) Run(t *core.Tape, cfg *core.Config, st *core.Stats) (viol *core
 					fmt.Sprintf("local r = {}; for l in io.lines(%q) do r[#r + 1] = l end; return enc(unpack(r))", p), expect{vals: want})
 			case 9:
 				v = do(fmt.Sprintf("io.type(%s)", h.name), fmt.Sprintf("return enc(io.type(%s))", h.name), expect{vals: []string{"Sfile"}})
+			case 10: // obtain a line iterator and keep it; it is called later (also after the handle was closed)
+				if !h.canRead {
+					break
+				}
+				h.hasIter = true
+				v = do(fmt.Sprintf("IT_%s = %s:lines()", h.name[2:3], h.name), fmt.Sprintf("IT_%s = %s:lines(); return enc(type(IT_%s))", h.name[2:3], h.name, h.name[2:3]), expect{vals: []string{"Sfunction"}})
+			case 11: // call the kept iterator
+				if !h.hasIter {
+					break
+				}
+				if h.lastOp == "write" {
+					if v = sync(h); v != nil {
+						break
+					}
+				}
+				b, eof := readLine(h)
+				h.readEOF = h.pos >= len(h.f.data)
+				h.lastOp = "read"
+				nreads++
+				st.Probe("kept_iterator_called")
+				if eof {
+					v = do(fmt.Sprintf("IT_%s()  -- kept iterator at end of file", h.name[2:3]), fmt.Sprintf("return enc(IT_%s())", h.name[2:3]), expect{vals: []string{"N"}})
+				} else {
+					v = do(fmt.Sprintf("IT_%s()  -- kept iterator", h.name[2:3]), fmt.Sprintf("return enc(IT_%s())", h.name[2:3]), expect{vals: []string{"S" + string(b)}})
+				}
 			}
 		}
 		if v != nil {
